@@ -658,3 +658,83 @@ pub fn finalize_compaction_inputs(
         nums(cm.grandparents_for_verif()),
     )
 }
+
+/// A version set whose current version holds `levels`, installed through a real `log_and_apply`
+/// (which creates the manifest). Returns the guarded fields.
+fn vset_with(options: &DbOptions, levels: &[(usize, Vec<VFile>)]) -> (parking_lot::Mutex<GuardedDbFields>, Arc<TableCache>) {
+    let tc = Arc::new(TableCache::new(options.clone(), 2));
+    let vs = VersionSet::new(options.clone(), Arc::clone(&tc));
+    let guarded = parking_lot::Mutex::new(GuardedDbFields::new_for_verif(vs));
+    {
+        let mut g = guarded.lock();
+        let mut m = VersionChangeManifest::default();
+        for (level, files) in levels {
+            for f in files {
+                g.version_set.mark_file_number_used(f.0);
+                m.add_file(
+                    *level,
+                    f.0,
+                    f.1,
+                    InternalKey::new(f.2 .0.clone(), f.2 .1, Operation::Put)..InternalKey::new(f.3 .0.clone(), f.3 .1, Operation::Put),
+                );
+            }
+        }
+        let _ = VersionSet::log_and_apply(&mut g, &mut m);
+    }
+    (guarded, tc)
+}
+
+fn describe_files(vs: &VersionSet) -> Vec<String> {
+    let cur = vs.get_current_version();
+    let mut out = vec![];
+    for (level, files) in cur.read().element.files.iter().enumerate() {
+        for f in files.iter() {
+            out.push(format!(
+                "{}:{}:{}:{:?}@{}:{:?}@{}",
+                level,
+                f.file_number(),
+                f.get_file_size(),
+                f.smallest_key().get_user_key(),
+                f.smallest_key().get_sequence_number(),
+                f.largest_key().get_user_key(),
+                f.largest_key().get_sequence_number()
+            ));
+        }
+    }
+    out
+}
+
+/// Install `levels`, force the next `log_and_apply` to start a new manifest (which writes a snapshot
+/// of the current version), then recover a fresh version set from disk.
+/// Returns (files before, files after recovery, recovery succeeded).
+pub fn vset_snapshot_roundtrip(options: DbOptions, levels: &[(usize, Vec<VFile>)]) -> (Vec<String>, Vec<String>, bool) {
+    let (guarded, _tc) = vset_with(&options, levels);
+    let mut g = guarded.lock();
+    let before = describe_files(&g.version_set);
+    g.version_set_drop_manifest_for_verif();
+    let mut m2 = VersionChangeManifest::default();
+    let _ = VersionSet::log_and_apply(&mut g, &mut m2);
+    let tc2 = Arc::new(TableCache::new(options.clone(), 2));
+    let mut vs2 = VersionSet::new(options.clone(), Arc::clone(&tc2));
+    let ok = vs2.recover().is_ok();
+    let after = if ok { describe_files(&vs2) } else { vec![] };
+    (before, after, ok)
+}
+
+/// Apply one more edit (adding table `number` at level 1) to a version set; `arm` is called right before it
+/// (to inject file system faults). With `new_manifest` the edit has to start a new manifest file.
+/// Returns (log_and_apply returned Ok, the new file is part of the current version).
+pub fn vset_log_and_apply_edit(options: DbOptions, new_manifest: bool, number: u64, arm: &dyn Fn()) -> (bool, bool) {
+    let (guarded, _tc) = vset_with(&options, &[]);
+    let mut g = guarded.lock();
+    if new_manifest {
+        g.version_set_drop_manifest_for_verif();
+    }
+    let mut m = VersionChangeManifest::default();
+    g.version_set.mark_file_number_used(number);
+    m.add_file(1, number, 100, InternalKey::new(vec![1], 5, Operation::Put)..InternalKey::new(vec![2], 4, Operation::Put));
+    arm();
+    let ok = VersionSet::log_and_apply(&mut g, &mut m).is_ok();
+    let installed = describe_files(&g.version_set).iter().any(|d| d.starts_with(&format!("1:{}:", number)));
+    (ok, installed)
+}
